@@ -9,7 +9,7 @@ def append_only(ch, ctx, did, **kw):
 
 def obligations(tier):
     obs = []
-    plain = [("D02", 5), ("D05b", 5), ("D06p", 6), ("D09", 8), ("D09b", 8), ("D10", 5), ("D11", 5), ("D12p", 6), ("D13i", 4), ("D15", 4)]
+    plain = [("D02", 5), ("D05b", 5), ("D06p", 6), ("D09", 8), ("D09b", 8), ("D10", 5), ("D11", 5), ("D12p", 6), ("D13i", 4), ("D15", 4), ("D22", 6), ("D23", 6)]
     for did, steps in plain:
         o = ob("C18", "e2c." + did, "vt.harness.C18:append_only", {"did": did, "steps": steps, "tokens": True, "bits": True}, timeout=900)
         o["antecedents"] = ["c18_compared", "c18_decided"]
@@ -18,6 +18,11 @@ def obligations(tier):
     if tier == "quick":
         reruns = [r for r in reruns if r[0] in ("D18", "D11")]
     # relaxed start order (an offered task is started only after a further event) around an explicit rerun
+    # relaxed start order (an offered task is started only after a further event) right after an explicit rerun
+    o = ob("C18", "e2c.lazy.D19", "vt.harness.C18:append_only", {"did": "D19", "steps": 4, "tokens": True, "rerun": "explicit", "rerun_steps": 2, "rerun_ok": True, "rerun_order": False, "lazy_start": 1, "lazy_after_rerun": True}, timeout=1200)
+    o["antecedents"] = ["c18_compared"]
+    o["fixed"] = {"rr:init/0": False, "rr:fast/0": False, "rr:done/0": False}
+    obs.extend(rerun_sets(o, ["slow/0", "work/0"], 2))
     for did, steps, labels in reruns:
         o = ob("C18", "e2c.rerun." + did, "vt.harness.C18:append_only", {"did": did, "steps": steps, "tokens": True, "rerun": "explicit", "rerun_steps": 3 if tier == "quick" else 5, "rerun_ok": tier == "quick"}, timeout=1200)
         o["antecedents"] = ["c18_compared", "c18_decided"]
